@@ -269,10 +269,7 @@ def dominating_conditions(fa, bb):
         o = fa.origin_operand(t["discr"], b.i, len(b.stmts))
         m = {v: x for v, x in t["targets"]}
         if t.get("discr_ty") == "bool":
-            neg = False
-            while isinstance(o, tuple) and o[0] == "un" and o[1] == "Not":
-                o = o[2]
-                neg = not neg
+            o, neg = canon_cond(o)
             f = m.get(0, t["otherwise"])
             tr = t["otherwise"] if 0 in m else m.get(1)
             if tr is not None and tr != f:
@@ -290,6 +287,25 @@ def dominating_conditions(fa, bb):
 
 def same(a, b):
     return term_sig_(strip(a)) == term_sig_(strip(b))
+
+
+def cond_spellings(o, truth):
+    """every equivalent rendering of the dominating fact (canonical condition o, truth value): a
+    reviewed guard written as `Ge(len(data)` matches however the source spells the test"""
+    s0 = term_sig_(o)
+    out = [s0 + ("" if truth is True else "=%s" % (truth,))]
+    if isinstance(o, tuple) and o[0] == "bin" and o[1] in ("Lt", "Eq") and isinstance(truth, bool):
+        a, b = term_sig_(o[2]), term_sig_(o[3])
+        if o[1] == "Lt":
+            out += ["Gt(%s, %s)" % (b, a)] if truth else ["Ge(%s, %s)" % (a, b), "Le(%s, %s)" % (b, a), "Gt(%s, %s)=False" % (b, a)]
+        else:
+            out += ["Eq(%s, %s)" % (b, a)] if truth else ["Ne(%s, %s)" % (a, b), "Ne(%s, %s)" % (b, a)]
+    if isinstance(o, tuple) and o[0] == "call" and isinstance(truth, bool) and not truth:
+        if s0.startswith("is_some("):
+            out.append("is_none(" + s0[len("is_some("):])
+        if s0.startswith("is_ok("):
+            out.append("is_err(" + s0[len("is_ok("):])
+    return out
 
 
 CMP_FLIP = {"Lt": "Gt", "Gt": "Lt", "Le": "Ge", "Ge": "Le", "Eq": "Eq", "Ne": "Ne"}
@@ -540,7 +556,7 @@ def panic_rule(ctx, prop, rule, entries, floor=0, skip_fns=(), only_fn=None):
                     used.add(key)
                     if e.get("guard"):
                         # A3: the named guard must still dominate the site
-                        conds = [term_sig_(o) + ("" if t is True else "=%s" % (t,)) for o, t, _ in dominating_conditions(s.fa, s.bb)]
+                        conds = [c_ for o, t, _ in dominating_conditions(s.fa, s.bb) for c_ in cond_spellings(o, t)]
                         okg = any(e["guard"] in c for c in conds)
                         if okg:
                             stats["A3"] += 1
@@ -581,23 +597,31 @@ def r4(ctx):
     rule = "C09.R4"
     fa = ctx.fn(MT_CVP)
     if need(ctx, P, rule, MT_CVP, fa):
-        # from >= to || to > head  ->  Err
-        conds = list(bool_switches(fa, lambda o: o[0] == "bin" and o[1] in ("Ge", "Gt", "Lt", "Le")))
-        def is_(o, op, a_has, b_has):
-            return o[1] == op and a_has in term_str(o[2]) and b_has in term_str(o[3])
-        ge = [x for x in conds if is_(x[1], "Ge", "upgrade", "upgrade") and "length" in term_str(x[1][3])]
-        gt = [x for x in conds if x[1][1] == "Gt" and "self.length" in term_str(x[1][3]) and "upgrade" in term_str(x[1][2])]
+        # from >= to || to > head  ->  Err, however the test is spelled: comparisons are canonical
+        # (`a >= b` is the false side of `a < b`), so `!(from < to && to <= head)` is the same rule
+        def lt_edges(pa, pb):
+            """[(switch bb, edge where a < b holds, edge where a >= b holds)]"""
+            out = []
+            for bb, o, tr, fl in bool_switches(fa, lambda o: o[0] == "bin" and o[1] == "Lt"):
+                if pa(term_str(o[2])) and pb(term_str(o[3])):
+                    out.append((bb, tr, fl))
+            return out
+        is_from = lambda t_: "upgrade).start" in t_ and "upgrade).length" not in t_
+        is_to = lambda t_: "upgrade).length" in t_
+        is_head = lambda t_: "self.length" in t_ and "upgrade" not in t_
+        ge = lt_edges(is_from, is_to)          # from < to  | from >= to
+        gt = lt_edges(is_head, is_to)          # head < to  | to <= head
         ok1 = ok2 = False
         if ge:
             vals = [t for _, _, t in ret_values_in_region(fa, ge[0][2])]
             ok1 = bool(vals) and all(is_agg(t, "Err") for t in vals)
         if gt:
-            vals = [t for _, _, t in ret_values_in_region(fa, gt[0][2])]
+            vals = [t for _, _, t in ret_values_in_region(fa, gt[0][1])]
             ok2 = bool(vals) and all(is_agg(t, "Err") for t in vals)
         ctx.check(P, rule, "create_valueless_proof rejects an empty or inverted upgrade range", ok1, "from >= to returns Err", "no `from >= to => Err` validation of the upgrade range", key="C09|C09.R4|create_valueless_proof|from>=to")
         ctx.check(P, rule, "create_valueless_proof rejects an upgrade beyond the tree", ok2, "to > head returns Err", "no `to > head => Err` validation of the upgrade range", key="C09|C09.R4|create_valueless_proof|to>head")
         if ge and gt:
-            passed = [ge[0][3], gt[0][3]]
+            passed = [ge[0][1], gt[0][2]]
             users = sites_any(fa, (MT + "::upgrade_proof", MT + "::additional_upgrade_proof", NODES_TO_ROOT, MT + "::seek_from_head", MT + "::block_and_seek_proof"))
             bad = [s for s in users if not all(fa.dominates(p_, s) for p_ in passed)]
             ctx.check(P, rule, "range validation precedes every use of from/to", users and not bad, "%d proof-building calls all behind the validation" % len(users), "proof-building calls not dominated by the range validation: %s" % [loc(fa, s) for s in bad])
@@ -617,7 +641,7 @@ def r4(ctx):
         good = False
         if idx:
             for o, truth, sb in dominating_conditions(fs, idx[0]):
-                if o[0] == "bin" and ((o[1] == "Ge" and truth is False) or (o[1] == "Lt" and truth is True)) and "self.i" in term_str(o[2]) and "self.nodes" in term_str(o[3]):
+                if o[0] == "bin" and o[1] == "Lt" and truth is True and "self.i" in term_str(o[2]) and "self.nodes" in term_str(o[3]):
                     good = True
         ctx.check(P, rule, "NodeQueue::shift checks the cursor before indexing", good, "self.i >= self.nodes.len() => Err dominates self.nodes[self.i]", "self.nodes[self.i] is not guarded by the cursor check", key="C09|C09.R4|NodeQueue::shift|cursor check")
     fx = ctx.fn(NEXT_SLOT)
